@@ -200,10 +200,83 @@ fn rounding_miss(env: &Env, root: Node, boxes: &[Vec<(f32, f32)>], p: &[f32]) ->
     one::<fidget_core::vm::VmFunction>(env, root, boxes, p).or_else(|| one::<JitFunction>(env, root, boxes, p))
 }
 
+/// F18 (see C03) reaching a decision: true if, on one of the traced boxes, the
+/// JIT's interval evaluation of the original graph has a mul / div node below
+/// `root` whose four bound products are a mixture of NaN and non-NaN values --
+/// the lane-wise min / max then drop real products, the node's interval is
+/// wrong, and a choice decided from it (directly or downstream) is wrong too.
+fn jit_mul_nan_products(env: &Env, root: Node, boxes: &[Vec<(f32, f32)>]) -> Option<String> {
+    use fidget_core::context::{BinaryOpcode, Op};
+    if !env.jit {
+        return None;
+    }
+    let below: Vec<Node> = topo(&env.b.ctx, &[root])
+        .into_iter()
+        .filter(|n| !env.b.var_nodes.contains(n))
+        .collect();
+    if below.is_empty() {
+        return None;
+    }
+    let f = JitFunction::new(&env.b.ctx, &below).ok()?;
+    let vm = f.vars();
+    let mut slot_to_k: Vec<Option<usize>> = vec![None; vm.len()];
+    let mut var_k: std::collections::HashMap<Node, usize> = Default::default();
+    for (k, i) in env.order_spec.iter().enumerate() {
+        if let Some(s) = vm.get(&env.b.vars[*i]) {
+            slot_to_k[s] = Some(k);
+        }
+        var_k.insert(env.b.var_nodes[*i], k);
+    }
+    let index: std::collections::HashMap<Node, usize> = below.iter().enumerate().map(|(j, n)| (*n, j)).collect();
+    let it = f.interval_tape(Default::default());
+    let mut ie = JitFunction::new_interval_eval();
+    for bx in boxes {
+        let iin: Vec<Interval> = slot_to_k
+            .iter()
+            .map(|k| k.map(|k| Interval::new(bx[k].0, bx[k].1)).unwrap_or(Interval::from(0.0)))
+            .collect();
+        let iv: Vec<Interval> = ie.eval(&it, &iin).ok()?.0.to_vec();
+        let of = |n: Node| -> Option<Interval> {
+            index
+                .get(&n)
+                .map(|j| iv[*j])
+                .or_else(|| var_k.get(&n).map(|k| Interval::new(bx[*k].0, bx[*k].1)))
+        };
+        for n in &below {
+            if let Op::Binary(o @ (BinaryOpcode::Mul | BinaryOpcode::Div), l, r) = *env.b.ctx.get_op(*n).unwrap() {
+                let (Some(a), Some(b)) = (of(l), of(r)) else { continue };
+                let (mut nan, mut real) = (0, 0);
+                for x in [a.lower(), a.upper()] {
+                    for y in [b.lower(), b.upper()] {
+                        let p = if o == BinaryOpcode::Mul { x * y } else { x / y };
+                        if p.is_nan() {
+                            nan += 1;
+                        } else {
+                            real += 1;
+                        }
+                    }
+                }
+                if nan > 0 && real > 0 {
+                    return Some(format!(
+                        "JIT interval {o:?} of [{}, {}] and [{}, {}] has NaN and non-NaN bound products",
+                        fl_to_string(a.lower()),
+                        fl_to_string(a.upper()),
+                        fl_to_string(b.lower()),
+                        fl_to_string(b.upper())
+                    ));
+                }
+            }
+        }
+    }
+    None
+}
+
 struct Env<'a> {
     b: &'a Built,
     roots: &'a [Node],
     order_spec: Vec<usize>, // function slot -> spec variable
+    /// the chain uses the JIT's evaluators
+    jit: bool,
 }
 
 fn trace_classes(t: &VmTrace) -> (usize, usize, usize) {
@@ -399,6 +472,20 @@ where
                         continue;
                     }
                     if sig == "child-differs-from-parent" {
+                        if let Some(why) = jit_mul_nan_products(env, root, &traced_boxes) {
+                            if cx.known("F18-jit-interval-mul-nan-product") {
+                                continue;
+                            }
+                            fail!(
+                                "F18-jit-interval-mul-nan-product",
+                                "after {depth} simplification(s): {} output {k}: parent {} child {} at {:?} (box {:?}); {why}",
+                                KIND_NAMES[kind],
+                                fl_to_string(pv[k]),
+                                fl_to_string(cv[k]),
+                                p,
+                                cur_box
+                            );
+                        }
                         if let Some(why) = rounding_miss(env, root, &traced_boxes, p) {
                             if cx.known("F21-interval-not-outward-rounded") {
                                 continue;
@@ -480,6 +567,12 @@ where
                             && cx.known("F11-interval-ignores-nan-from-infinity")
                         {
                             cx.ev.count("child_interval_miss_f11_skipped");
+                            continue;
+                        }
+                        if jit_mul_nan_products(env, env.roots[k], &traced_boxes).is_some()
+                            && cx.known("F18-jit-interval-mul-nan-product")
+                        {
+                            cx.ev.count("child_interval_miss_f18_skipped");
                             continue;
                         }
                         if rounding_miss(env, env.roots[k], &traced_boxes, p).is_some()
@@ -609,6 +702,7 @@ impl Prop for P {
             b: &b,
             roots: &roots,
             order_spec,
+            jit: case.backend == 0,
         };
         cx.ev.count(&format!("backend_{}", case.backend));
         match case.backend {
